@@ -65,7 +65,7 @@ def check_triple(ctx, reqs, metas, b, l, r, strat, transients, md, kinds, varian
     ctx.case(canon(b) + canon(l) + canon(r) + json.dumps(a.key()) + md, True)
     data = {'b': enc(b), 'l': enc(l), 'r': enc(r), 'strategy': a.key(), 'helper': md, 'scenario': kinds, 'variant': variant}
     if res[0] != 'ok':
-        ctx.violation('merge raised %s under %s' % (res[2], a.key()), dict(data, kind='raises'))
+        ctx.violation('merge raised %s under %s' % (res[2], a.key()), dict(data, kind='merge-raises', site=mergelib.LAST_ERROR_SITE[0]))
         return
     merged, decisions = res[1], res[2]
     # provenance of source lines (all variants)
